@@ -636,9 +636,12 @@ func init() {
 				maxL = 3
 			}
 			for l := 0; l <= maxL; l++ {
-				for _, form := range []string{"eq", "nested", "list"} {
+				for _, form := range []string{"eq", "nested", "list", "mixed", "mixed-rev"} {
 					for _, o := range []string{"0000", "1111"} {
 						if l == 3 && o == "1111" {
+							continue
+						}
+						if strings.HasPrefix(form, "mixed") && (l == 0 || l > 2) {
 							continue
 						}
 						units = append(units, Unit{"VerifC13Literal", []string{itoa2(l), form, o}})
@@ -1209,6 +1212,13 @@ func init() {
 						units = append(units, Unit{"VerifC14Layout", []string{joined, itoa2(g), "space2", nt}})
 						units = append(units, Unit{"VerifC14Layout", []string{joined, itoa2(g), "comment", nt}})
 					}
+					units = append(units, Unit{"VerifC14Layout", []string{joined, itoa2(g), "comment0", nt}})
+					if g%3 != 1 || tier == "thorough" {
+						units = append(units, Unit{"VerifC14Layout", []string{joined, itoa2(g), "comment1", nt}})
+					}
+					if g%3 == 1 || tier == "thorough" {
+						units = append(units, Unit{"VerifC14Layout", []string{joined, itoa2(g), "comment-twice", nt}})
+					}
 					units = append(units, Unit{"VerifC14Layout", []string{joined, itoa2(g), "directive", nt}})
 					// no whitespace at all is a re-layout of the same tokens only next to a delimiter,
 					// and not in front of a string literal (a quote starts a literal only at a token start)
@@ -1217,6 +1227,7 @@ func init() {
 					}
 				}
 				units = append(units, Unit{"VerifC14Layout", []string{joined, "0", "lead", nt}}, Unit{"VerifC14Layout", []string{joined, "0", "trail", nt}})
+				units = append(units, Unit{"VerifC14Layout", []string{joined, "0", "comment-lead", nt}}, Unit{"VerifC14Layout", []string{joined, "0", "comment-trail", nt}})
 			}
 			// formatter
 			maxL := 3
